@@ -194,11 +194,16 @@ Definition c05_ok (c : case) : bool :=
   | CAspaEx res pre c u (AspaErr e post) => aspa_ex_refuse_spec res pre c u && aspas_eqb post pre
   | CBgp res pre u (BgpOk post) =>
       negb (b_refuse_spec res (bview_to_defs pre) u)
+      (* bgpsec_update_iff: every accepted definition is validly signed, for an AS held now - known key or not *)
+      && forallb (fun d => bd_sig_ok d && contains_asn res (bd_asn d)) (bu_add u)
       && forallb (fun k => opt_eqb N.eqb (get bkey_eqb post k) (bgp_expected pre u k))
                  (keys pre ++ map bd_bkey (bu_add u) ++ bu_remove u ++ keys post)
   | CBgp res pre u (BgpErr e post) => b_refuse_spec res (bview_to_defs pre) u && bview_eqb post pre
   | CChild held pre o (ChildOk post) =>
       negb (child_refuse_spec held pre o)
+      (* child_add_ok_spec / child_update_ok_spec: what an accepted request entitles the child to
+         is not empty and lies inside what the CA holds now *)
+      && (match o with CAdd _ r | CUpdate _ r => negb (rs_is_empty r) && rs_contains held r end)
       && forallb (fun k => opt_eqb rs_eqb (cget post k) (child_expected pre o k))
                  ((match o with CAdd c _ | CUpdate c _ => c end) :: keys pre ++ keys post)
   | CChild held pre o (ChildErr e post) => child_refuse_spec held pre o && children_eqb post pre
